@@ -35,6 +35,21 @@ CHECKS = {
    note="Trusted: engine/bcv, harness snapshot. CLI file handling (cmd/tengo) itself is not driven, only Bytecode.Encode/Decode which it calls.",
    technique="bounded exhaustive program enumeration with differential execution of transformed bytecode + explicit-state structural check",
    engine="bcv", design="4/C12"),
+ "C17": dict(
+   text="Exhaustive enumeration of the documented directive grammar (32 flag subsets x width x precision x explicit argument index x 20 verbs) against every argument list of length 0-3 over per-type alphabets (boundary ints, special floats, invalid UTF-8 strings, bools, bytes; '*' operands), hand-written re-indexing shapes, and all format strings up to length 5/6 over a 17-symbol alphabet; each compared with fmt.Sprintf of the host toolchain (minus the three exclusions the property lists), through tengo.Format, builtin format and fmt.sprintf; plus the same strings under a small MaxStringLen for 'string or limit error, never a panic'.",
+   note="Trusted: Go's fmt as executable specification (go1.23), the exclusion logic for %q on non-code-point ints / '#' with %x on floats / EXTRA rendering. Bounded by the alphabets and string length.",
+   technique="bounded exhaustive enumeration of format directives/strings x argument lists against Go's fmt as reference model",
+   design="4/C17"),
+ "C18": dict(
+   text="Decoder: every symbol string up to length 5/6 over a 26-symbol JSON alphabet (plus deeper sub-alphabet, string-literal atoms incl. surrogate escapes and broken UTF-8, number boundary spellings, nesting depths, all bytes in templates) is decoded and compared with encoding/json (Valid + UseNumber decode): accept/reject agreement, no panic, same data, int/float typing. Encoder: all values of depth <= 2/3, width <= 2 over boundary scalars: valid JSON, read identically by encoding/json, and decoded back to an equal value; also through the script-level json module.",
+   note="Trusted: encoding/json of the host toolchain as the reference, the independent tree comparer. Cyclic containers and nesting deeper than 20000 are not driven (fatal stack overflow is C05's topic).",
+   technique="bounded exhaustive enumeration of byte strings / values against encoding/json as reference model",
+   design="4/C18"),
+ "C20": dict(
+   text="(a) all expression trees with <= 3/4 operators over the 19 binary + 4 unary operators + ternary + postfix forms, printed with minimal parentheses from the documented precedence table, must parse back to the generator's tree; (b) all adjacent token pairs (61 tokens squared) across newline/comment separators in 15 contexts must scan like ';' exactly for the Go-style trigger set; (c) all number spellings up to length 5/6 over a 16-symbol alphabet and all char/string bodies up to length 4/6 must be accepted exactly when go/scanner accepts them, with go/constant's value; (d) every program of a statement-level family must print, re-parse and compile to identical instructions and constants.",
+   note="Trusted: go/scanner + go/constant as literal reference; the documented precedence table; Go's semicolon rule carried to Tengo's tokens (the docs do not list the trigger set; pinned, see evidence assumptions).",
+   technique="bounded exhaustive enumeration of expression trees, token pairs, literal spellings and programs against generator trees / go/scanner / print-reparse-recompile",
+   design="4/C20"),
 }
 
 NOT_YET = {}
